@@ -16,6 +16,12 @@ R4  the transformer composes a new matrix as to_pivot @ M @ from_pivot @ current
     matrix and reverse() the inverse with a homogeneous vector (x, y, z, 1);
 R5  matrix and inverse are stored together, the inverse being inv() of the
     very matrix stored.
+R6  the matrix each of translate / scale / rotate / reflect / mirror hands to
+    chain_transform is the textbook one for its arguments (oracle: translation
+    column (x, y, z); diag(s, s, s, 1), diag(sx, sy, 1, 1), diag(sx, sy, sz, 1);
+    rotation by radians(angle) about the unit vector of the named axis;
+    Householder I - 2 n n^T with n = normal / |normal|; mirror planes xy, yz,
+    zx have normals z, x, y).
 Not decided: floating-point accuracy of numpy/scipy; the exact float equality
 ``combine`` uses for "image changed".
 """
@@ -255,6 +261,172 @@ def transformer_rules(check, P):
     return n
 
 
+def _norm(t):
+    import re
+    return re.sub(r"#\d+", "", t)
+
+
+AX_INDEX = {"X": 0, "Y": 1, "Z": 2}
+PLANE_NORMAL = {"XY": (0, 0, 1), "YZ": (1, 0, 0), "ZX": (0, 1, 0)}      # oracle: the axis the plane does not contain
+SLICE_33 = ("(:3, :3)", "(0:3, 0:3)", "(:-1, :-1)")
+SLICE_COL = ("(:-1, -1)", "(:3, -1)", "(:3, 3)", "(:-1, 3)", "(0:3, 3)", "(0:3, -1)")
+
+
+def constructor_rules(check, P):
+    """R6: what translate/scale/rotate/reflect/mirror hand to chain_transform."""
+    W = World(P, "CoordinateTransformer", root_label="xf")
+    I = W.I
+    I.event_funcs = {"CoordinateTransformer.chain_transform"}
+    s = [Poly.sym(f"arg.s{i}") for i in range(4)]
+    ONE = "1"
+    n = 0
+
+    def val_key(v):
+        if isinstance(v, Num):
+            return ("c", float(v.p.const_value())) if v.p.is_const() else ("p", v.p.key())
+        if isinstance(v, Const) and isinstance(v.v, (int, float)) and not isinstance(v.v, bool):
+            return ("c", float(v.v))
+        return ("?", repr(v))
+
+    def want_key(w):
+        return ("c", float(w)) if isinstance(w, (int, float)) else ("p", w.key())
+
+    def accepted(name, mkargs):
+        nonlocal n
+        out = []
+        for path in I.explore(lambda I_: None, lambda I_, c: W.call_method(I_, "xf", name, mkargs(I_), {}), max_dev=None, max_paths=400):
+            n += 1
+            if path.outcome == "return":
+                out.append(path)
+        return out
+
+    def chain_arg(path):
+        cs = calls(path, "CoordinateTransformer.chain_transform")
+        return cs[-1].data["args"][-1] if len(cs) == 1 else None
+
+    def exts(path, suffix):
+        return [e for e in path.trace if e.kind == "EXT" and isinstance(e.data.get("callee"), ExtV) and e.data["callee"].name.endswith(suffix)]
+
+    def tagged(path, v):
+        saved = I.heap
+        I.heap = path.heap
+        try:
+            return _norm(I.tag(v))
+        finally:
+            I.heap = saved
+
+    def items_of(path, v):
+        if isinstance(v, Tup):
+            return list(v.items)
+        if isinstance(v, Ref) and isinstance(path.heap.get(v.addr), AList):
+            return list(path.heap[v.addr].items)
+        if isinstance(v, ArrV):
+            return list(v.items)
+        return None
+
+    def amat_block(path, v, slices):
+        o = path.heap.get(v.addr) if isinstance(v, Ref) else None
+        if isinstance(o, AMat) and o.base.startswith("eye4") and len(o.sets) == 1 and o.sets[0][0] in slices:
+            return o.sets[0][1]
+        return None
+
+    # translate
+    for k in (3, 2):
+        ps = accepted("translate", lambda I_: tuple(Num(x) for x in s[:k]))
+        check.floor(bool(ps), f"C04.R6: translate/{k} has no accepted path")
+        for path in ps:
+            col = amat_block(path, chain_arg(path), SLICE_COL)
+            got = items_of(path, col) if col is not None else None
+            want = [s[0], s[1], s[2] if k == 3 else 0.0]
+            if got is None:
+                check.undecided("R6", f"translate/{k}: matrix construction not recognised: {tagged(path, chain_arg(path))}")
+                check.floor(False, "C04.R6: translate builds its matrix in a form the analysis does not recognise")
+            elif [val_key(g) for g in got] == [want_key(w) for w in want]:
+                check.ok("R6", f"translate/{k}: identity with last column ({', '.join('xyz'[:k])}{', 0' if k == 2 else ''})")
+            else:
+                check.violation("R6", f"translate/{k}:column", f"translate with {k} arguments chains {tagged(path, chain_arg(path))}; expected the identity with last column (x, y, {'z' if k == 3 else '0'})", [decisions_text(path)])
+    # scale
+    for k in (1, 2, 3):
+        ps = accepted("scale", lambda I_: tuple(Num(x) for x in s[:k]))
+        check.floor(bool(ps), f"C04.R6: scale/{k} has no accepted path")
+        want = {1: [s[0], s[0], s[0], 1.0], 2: [s[0], s[1], 1.0, 1.0], 3: [s[0], s[1], s[2], 1.0]}[k]
+        for path in ps:
+            d = exts(path, "numpy.diag")
+            arg = chain_arg(path)
+            got = items_of(path, d[-1].data["args"][0]) if len(d) == 1 and d[-1].data["args"] else None
+            if got is None or arg != d[-1].data.get("result"):
+                check.undecided("R6", f"scale/{k}: matrix construction not recognised: {tagged(path, arg)}")
+                check.floor(False, "C04.R6: scale builds its matrix in a form the analysis does not recognise")
+            elif [val_key(g) for g in got] == [want_key(w) for w in want]:
+                check.ok("R6", f"scale/{k}: diag{tuple(str(w) for w in want)}")
+            else:
+                check.violation("R6", f"scale/{k}:diagonal", f"scale with {k} factor(s) chains diag({', '.join(tagged(path, g) for g in got)}); expected diag({', '.join(str(w) for w in want)})", [decisions_text(path)])
+    for k in (0, 4):
+        nonret = True
+        for path in I.explore(lambda I_: None, lambda I_, c: W.call_method(I_, "xf", "scale", tuple(Num(x) for x in s[:k]), {}), max_dev=None, max_paths=50):
+            n += 1
+            if path.outcome == "return":
+                nonret = False
+        if nonret:
+            check.ok("R6", f"scale/{k}: rejected")
+        else:
+            check.violation("R6", f"scale/{k}:accepted", f"scale with {k} factors is accepted; only 1 to 3 factors name a scaling of the three axes", [])
+    # rotate
+    ang = Num(Poly.sym("arg.angle"))
+    for ax in ("X", "Y", "Z", None):
+        ps = accepted("rotate", lambda I_: (ang,) + ((Member("Axis", ax),) if ax else ()))
+        check.floor(bool(ps), f"C04.R6: rotate/{ax} has no accepted path")
+        idx = AX_INDEX[ax or "Z"]
+        for path in ps:
+            fr = exts(path, "Rotation.from_rotvec")
+            blk = amat_block(path, chain_arg(path), SLICE_33)
+            vec = items_of(path, fr[-1].data["args"][0]) if len(fr) == 1 and fr[-1].data["args"] else None
+            rot = tagged(path, fr[-1].data.get("result")) if fr else None
+            if vec is None or blk is None or len(vec) != 3 or tagged(path, blk) != f"ret({rot}.as_matrix)":
+                check.undecided("R6", f"rotate/{ax}: matrix construction not recognised: {tagged(path, chain_arg(path))} (rotation {rot}, vector {vec})")
+                check.floor(False, "C04.R6: rotate builds its matrix in a form the analysis does not recognise")
+                continue
+            want = [("c", 0.0)] * 3
+            want[idx] = ("p", app("radians", Poly.sym("arg.angle")).key())
+            if [val_key(g) for g in vec] == want:
+                check.ok("R6", f"rotate/{ax or 'default'}: rotation vector radians(angle) on {'XYZ'[idx]}, upper-left 3x3 block")
+            else:
+                check.violation("R6", f"rotate/{ax or 'default'}:vector", f"rotate(angle, {ax or 'default axis'}) builds the rotation from the vector [{', '.join(tagged(path, g) for g in vec)}]; expected radians(angle) on the {'XYZ'[idx]} component and 0 elsewhere", [decisions_text(path)])
+    # reflect / mirror
+    def householder(path, label, want_normal):
+        arg = chain_arg(path)
+        blk = amat_block(path, arg, SLICE_33)
+        nm = exts(path, "linalg.norm")
+        ou = exts(path, "numpy.outer")
+        t = tagged(path, blk) if blk is not None else ""
+        forms = {f"sub(eye3, mult(Const({c}), ret(Ext(numpy.outer))))" for c in ("2", "2.0")} | {f"sub(eye3, mult(ret(Ext(numpy.outer)), Const({c})))" for c in ("2", "2.0")}
+        if not (len(nm) == 1 and len(ou) == 1 and t in forms):
+            check.undecided("R6", f"{label}: matrix construction not recognised: {tagged(path, arg)}")
+            check.floor(False, f"C04.R6: {label.split('/')[0]} builds its matrix in a form the analysis does not recognise")
+            return
+        nvec = items_of(path, nm[0].data["args"][0])
+        unit = f"div({tagged(path, nm[0].data['args'][0])}, {tagged(path, nm[0].data['result'])})"
+        oa = [tagged(path, a) for a in ou[0].data["args"]]
+        if nvec is None or len(nvec) != 3 or oa != [unit, unit]:
+            check.violation("R6", f"{label}:householder", f"{label} builds I - 2 * outer({', '.join(oa)}); expected both factors to be the normal divided by its own norm ({unit})", [decisions_text(path)])
+            return
+        if [val_key(g) for g in nvec] == [want_key(w) for w in want_normal]:
+            check.ok("R6", f"{label}: I - 2 n n^T with n = normal/|normal|, upper-left 3x3 block")
+        else:
+            check.violation("R6", f"{label}:normal", f"{label} reflects across the plane with normal ({', '.join(tagged(path, g) for g in nvec)}); expected ({', '.join(str(w) for w in want_normal)})", [decisions_text(path)])
+
+    ps = accepted("reflect", lambda I_: (I_.alloc(AList([Num(x) for x in s[:3]])),))
+    check.floor(bool(ps), "C04.R6: reflect has no accepted path")
+    for path in ps:
+        householder(path, "reflect", s[:3])
+    for pl, nrm in PLANE_NORMAL.items():
+        ps = accepted("mirror", lambda I_: (Member("Plane", pl),))
+        check.floor(bool(ps), f"C04.R6: mirror/{pl} has no accepted path")
+        for path in ps:
+            householder(path, f"mirror/{pl}", [float(x) for x in nrm])
+    return n
+
+
 def pins(key):
     if key.startswith("opt:g._current_axes") or key.startswith("opt:state._current_axes"):
         return "some"
@@ -293,7 +465,9 @@ def run(check, repo, tier):
             oks = [it[2] for it in r["items"] if it[0] == "ok"]
             check.sample({"command": r["command"], "context": r["ctx"], "abstract_paths": r["paths"], "example": oks[:2]})
     check.floor(not (n1 < 300), f"C04.R1: only {n1} word/end-to-end obligations decided (floor 300)")
+    check.rule("R6", "translate/scale/rotate/reflect/mirror chain the textbook matrix of their arguments")
     n4 = transformer_rules(check, cr.program)
+    n4 += constructor_rules(check, cr.program)
     check.analysed = dict(cr.stats, transformer_paths=n4)
     check.coverage["exhaustive"] = True
     check.explanation = (
